@@ -8,11 +8,32 @@ import z3
 
 from values import Unsupported
 
+DECLARED = None    # set of char operations the alphabet's classes distinguish (None = all)
+
+
+def _need(op):
+    if DECLARED is not None and op not in DECLARED:
+        raise Unsupported('char operation %r on a symbolic char is outside the declared alphabet signature' % op)
+
+
 # filled by load_alphabet(): cp -> dict(alnum, alpha, numeric, ws, lower:[cps], upper:[cps], width)
 R = {}
 
 
+_X = z3.Int('__chX')
+_TMPL = {}
+
+
+def _apply(name, builder, c):
+    t = _TMPL.get(name)
+    if t is None:
+        t = builder(_X)
+        _TMPL[name] = t
+    return z3.substitute(t, (_X, c))
+
+
 def load_alphabet(path):
+    _TMPL.clear()
     R.clear()
     for e in json.load(open(path)):
         R[e['cp']] = e
@@ -20,6 +41,7 @@ def load_alphabet(path):
 
 def default_alphabet():
     """fallback used only by unit tests of the engine (python's own Unicode tables)"""
+    _TMPL.clear()
     R.clear()
     for ch in 'éÉßİKſ٣²̇ 中😀':
         R[ord(ch)] = dict(cp=ord(ch), alnum=ch.isalnum(), alpha=ch.isalpha(), numeric=ch.isnumeric(),
@@ -31,10 +53,9 @@ def domain(c, ascii_only=False, alphabet=None):
     """constraint: c ∈ Σ"""
     if alphabet is not None:
         return z3.Or([c == a for a in alphabet])
-    parts = [z3.And(c >= 0, c <= 127)]
-    if not ascii_only:
-        parts += [c == r for r in sorted(R)]
-    return z3.Or(parts)
+    if ascii_only:
+        return z3.And(c >= 0, c <= 127)
+    return _apply('domain', lambda x: z3.Or([z3.And(x >= 0, x <= 127)] + [x == r for r in sorted(R)]), c)
 
 
 def rng(c, lo, hi):
@@ -92,25 +113,29 @@ def _native(cp, key):
 def p_alphanumeric(c):
     if isinstance(c, int):
         return p_ascii_alnum(c) if c < 128 else bool(_native(c, 'alnum'))
-    return z3.Or([p_ascii_alnum(c)] + _table(c, 'alnum'))
+    _need('alnum')
+    return _apply('alnum', lambda x: z3.Or([p_ascii_alnum(x)] + _table(x, 'alnum')), c)
 
 
 def p_alphabetic(c):
     if isinstance(c, int):
         return p_ascii_alpha(c) if c < 128 else bool(_native(c, 'alpha'))
-    return z3.Or([p_ascii_alpha(c)] + _table(c, 'alpha'))
+    _need('alpha')
+    return _apply('alpha', lambda x: z3.Or([p_ascii_alpha(x)] + _table(x, 'alpha')), c)
 
 
 def p_numeric(c):
     if isinstance(c, int):
         return p_ascii_digit(c) if c < 128 else bool(_native(c, 'numeric'))
-    return z3.Or([p_ascii_digit(c)] + _table(c, 'numeric'))
+    _need('numeric')
+    return _apply('numeric', lambda x: z3.Or([p_ascii_digit(x)] + _table(x, 'numeric')), c)
 
 
 def p_whitespace(c):
     if isinstance(c, int):
         return c in (9, 10, 11, 12, 13, 32) if c < 128 else bool(_native(c, 'ws'))
-    return z3.Or([z3.And(c >= 9, c <= 13), c == 32] + _table(c, 'ws'))
+    _need('ws')
+    return _apply('ws', lambda x: z3.Or([z3.And(x >= 9, x <= 13), x == 32] + _table(x, 'ws')), c)
 
 
 def p_ascii_whitespace(c):
@@ -119,17 +144,23 @@ def p_ascii_whitespace(c):
     return z3.Or(c == 9, c == 10, c == 12, c == 13, c == 32)
 
 
-def width(world, c):
-    """UTF-8 width of a char; forks on symbolic non-ASCII"""
+def width_expr(c):
+    """UTF-8 width of a char as an int or a z3 Int term (no forking)"""
     if isinstance(c, int):
         return 1 if c < 0x80 else 2 if c < 0x800 else 3 if c < 0x10000 else 4
-    if world.branch(c < 128):
-        return 1
-    for w in (2, 3, 4):
-        cs = [c == r for r, e in sorted(R.items()) if e['width'] == w]
-        if cs and world.branch(z3.Or(cs)):
-            return w
-    raise Unsupported('width of char outside alphabet')
+    def build(x):
+        e = 4
+        for w in (3, 2):
+            cs = [x == r for r, y in sorted(R.items()) if y['width'] == w]
+            if cs:
+                e = z3.If(z3.Or(cs), w, e)
+        return z3.If(x < 128, 1, e)
+    _need('width')
+    return _apply('width', build, c)
+
+
+def width(world, c):
+    return width_expr(c)
 
 
 def concretize_nonascii(world, c):
@@ -140,27 +171,34 @@ def concretize_nonascii(world, c):
     raise Unsupported('char outside alphabet')
 
 
-def to_lower(world, c):
-    """list of chars"""
+def _case_map(world, c, key, lo, hi, delta):
     if isinstance(c, int):
         if c < 128:
-            return [c + 32 if 65 <= c <= 90 else c]
-        return list(_native(c, 'lower'))
-    if world.branch(c < 128):
-        return [z3.If(rng(c, 65, 90), c + 32, c)]
-    r = concretize_nonascii(world, c)
-    return list(R[r]['lower'])
+            return [c + delta if lo <= c <= hi else c]
+        return list(_native(c, key))
+    _need(key)
+    multi = [r for r, e in sorted(R.items()) if len(e[key]) != 1]
+    if multi and world.branch(_apply('multi_' + key, lambda x: z3.Or([x == r for r in multi]), c)):
+        for r in multi:
+            if world.branch(c == r):
+                return list(R[r][key])
+        raise Unsupported('char outside alphabet')
+    def build(v):
+        e = v
+        for r, x in sorted(R.items()):
+            if len(x[key]) == 1 and x[key][0] != r:
+                e = z3.If(v == r, x[key][0], e)
+        return z3.If(rng(v, lo, hi), v + delta, e)
+    return [_apply('case_' + key, build, c)]
+
+
+def to_lower(world, c):
+    """list of chars (forks only for code points whose lower-case form has several chars)"""
+    return _case_map(world, c, 'lower', 65, 90, 32)
 
 
 def to_upper(world, c):
-    if isinstance(c, int):
-        if c < 128:
-            return [c - 32 if 97 <= c <= 122 else c]
-        return list(_native(c, 'upper'))
-    if world.branch(c < 128):
-        return [z3.If(rng(c, 97, 122), c - 32, c)]
-    r = concretize_nonascii(world, c)
-    return list(R[r]['upper'])
+    return _case_map(world, c, 'upper', 97, 122, -32)
 
 
 def ascii_lower(c):
